@@ -67,6 +67,7 @@ def case_strategy(max_pts=16):
 def oracle_reference(case):
     fam, th, pts = case['family'], case['theta'], case['pts']
     cop = S.make_copula(fam, th)
+    S.interleave_sibling(cop, fam, th, pts)        # two live copulas of one family: nothing is remembered across them
     U = np.array([p[0] for p in pts])
     V = np.array([p[1] for p in pts])
     h = arr(cop, 'partial_derivative', pts, 'h')
@@ -90,6 +91,7 @@ def oracle_reference(case):
 def oracle_invariants(case):
     fam, th, pts = case['family'], case['theta'], case['pts']
     cop = S.make_copula(fam, th)
+    S.interleave_sibling(cop, fam, th, pts)        # two live copulas of one family: nothing is remembered across them
     n = len(pts)
     U = np.array([p[0] for p in pts])
     V = np.array([p[1] for p in pts])
